@@ -88,6 +88,36 @@ def do_fs(case) -> dict:
         shutil.rmtree(d, ignore_errors=True)
 
 
+def do_templates(case) -> dict:
+    from pydoctor.templatewriter import TemplateLookup, StaticTemplate
+    d = Path(tempfile.mkdtemp(prefix='verif_c18tpl_'))
+    orig_iterdir = pathlib.Path.iterdir
+    listing = {}
+    try:
+        for sub, key in (('base', 'base'), ('custom', 'files')):
+            (d / sub).mkdir()
+            for name, content in case[key]:
+                (d / sub / name).write_text(str(content))
+            listing[str(d / sub)] = [n for n, _ in case[key]]
+
+        def iterdir(self):
+            k = str(self)
+            if k in listing:
+                assert {p.name for p in orig_iterdir(self)} == set(listing[k])
+                return iter([self / n for n in listing[k]])
+            return orig_iterdir(self)
+        pathlib.Path.iterdir = iterdir
+        try:
+            lookup = TemplateLookup(d / 'base')
+            lookup.add_templatedir(d / 'custom')
+        except Exception as e:
+            return {'error': type(e).__name__}
+        return {'templates': [[t.name, int(t.data.decode())] for t in lookup.templates if isinstance(t, StaticTemplate)]}
+    finally:
+        pathlib.Path.iterdir = orig_iterdir
+        shutil.rmtree(d, ignore_errors=True)
+
+
 def attrs_of(o) -> list:
     from pydoctor import model
     return [o.privacyClass.value, o.kind.value if o.kind else 0, o.fullName(), o.linenumber or 0,
@@ -300,7 +330,7 @@ def main() -> None:
     out = []
     for c in cases:
         quiet()
-        fn = {'fs': do_fs, 'sort': do_sort, 'roots': do_roots, 'counters': do_counters, 'ops': do_ops}[c['kind']]
+        fn = {'fs': do_fs, 'templates': do_templates, 'sort': do_sort, 'roots': do_roots, 'counters': do_counters, 'ops': do_ops}[c['kind']]
         try:
             out.append(fn(c))
         except SystemExit as e:
